@@ -149,36 +149,43 @@ def unsupportedOpts : List String :=
    "implicit", "ground", "sground", "rground", "cground", "nground", "pground", "0V", "tlground", "tground",
    "eground", "eground2", "vcc", "vdd", "vee", "vss", "input", "output", "bidir", "pad", "def", "nodes", "aspect"]
 
-/-! ### Cpt.R : the rotation table (any other angle goes through cos/sin floats: not modelled) -/
+/-! ### Cpt.R : the rotation table (generated: `Gen.rotTable`, `Gen.rotNormalise`); any angle that misses the table
+     goes through cos/sin floats in the code and is not modelled -/
 
+/-- `angle = (angle + 180) % 360 - 180` when Cpt.R normalises (Python `%` = Lean `Int.emod` for a positive modulus) -/
+def normKey (norm : Bool) (n : Int) : Int := if norm then (n + 180) % 360 - 180 else n
+
+def rotMatrix? (k : Int) : Option (Int × Int × Int × Int) :=
+  (Gen.rotTable.find? (fun e => e.1 == k)).map (·.2)
+
+/-- `dot(v, R)` with the matrix found in `Rdict`; non-integral angles never hit the table -/
 def rotCode (angle : Rat) (v : Rat × Rat) : Option (Rat × Rat) :=
-  if angle = 0 then some v
-  else if angle = 90 then some (-v.2, v.1)
-  else if angle = 180 then some (-v.1, -v.2)
-  else if angle = -180 then some (-v.1, -v.2)
-  else if angle = -90 then some (v.2, -v.1)
+  if angle.den = 1 then
+    match rotMatrix? (normKey Gen.rotNormalise angle.num) with
+    | some (a, b, c, d) => some (v.1 * (a : Rat) + v.2 * (c : Rat), v.1 * (b : Rat) + v.2 * (d : Rat))
+    | none => none
   else none
+
+/-- number of quarter turns (0..3) of an angle that is a multiple of 90 degrees -/
+def quarter (angle : Rat) : Option Int :=
+  if angle.den = 1 ∧ angle.num % 90 = 0 then some ((angle.num / 90) % 4) else none
 
 /-- the rotation a hint *means*: quarter turns, for every multiple of 90 degrees (spec side) -/
 def rotExact (angle : Rat) (v : Rat × Rat) : Option (Rat × Rat) :=
-  let q := angle / 90
-  if q.den = 1 then
-    match q.num % 4 with
-    | 0 => some v
-    | 1 => some (-v.2, v.1)
-    | 2 => some (-v.1, -v.2)
-    | _ => some (v.2, -v.1)
-  else none
+  match quarter angle with
+  | some 0 => some v
+  | some 1 => some (-v.2, v.1)
+  | some 2 => some (-v.1, -v.2)
+  | some _ => some (v.2, -v.1)
+  | none => none
 
 def dirOfAngle (angle : Rat) : Option Dir :=
-  let q := angle / 90
-  if q.den = 1 then
-    match q.num % 4 with
-    | 0 => some .right
-    | 1 => some .up
-    | 2 => some .left
-    | _ => some .down
-  else none
+  match quarter angle with
+  | some 0 => some .right
+  | some 1 => some .up
+  | some 2 => some .left
+  | some _ => some .down
+  | none => none
 
 /-! ### schematic assembly (Schematic._cpt_add) -/
 
@@ -287,9 +294,35 @@ structure Resolved where
   onePort : Bool
 deriving Repr
 
-/-- Cpt.tcoords with a given rotation function (`rotCode` = the code, `rotExact` = the meaning) -/
-def resolveWith (rot : Rat → Rat × Rat → Option (Rat × Rat)) (spacing : Rat) (all : List String) (e : Elt) :
-    Except String Resolved := do
+/-- `mapM` in `Except`, written structurally -/
+def mapE {α β : Type} (f : α → Except String β) : List α → Except String (List β)
+  | [] => .ok []
+  | a :: l =>
+    match f a with
+    | .error e => .error e
+    | .ok b =>
+      match mapE f l with
+      | .error e => .error e
+      | .ok bs => .ok (b :: bs)
+
+/-- everything `Cpt.tcoords` needs except the rotation -/
+structure PreResolved where
+  name : String
+  cls : String
+  nodes : List String
+  pinRows : List PinRow
+  row : ClassRow
+  angle : Rat
+  size : Rat
+  scale : Rat
+  h : Rat
+  width : Rat
+  stretch : Bool
+  skip : Bool
+  ignored : Bool
+  onePort : Bool
+
+def resolvePre (spacing : Rat) (all : List String) (e : Elt) : Except String PreResolved := do
   let some row := lookupRow e.cls | throw s!"unknown-class:{e.cls}"
   if row.hasDefaultPins then throw s!"unsupported-class:{e.cls}"
   if unsupportedOpts.any e.opts.has then throw "unsupported-opt"
@@ -299,21 +332,39 @@ def resolveWith (rot : Rat → Rat × Rat → Option (Rat × Rat)) (spacing : Ra
   let some sz := e.size row | throw "bad-size"
   let some sc := e.scale | throw "bad-scale"
   if e.ignore then
-    return ⟨e.name, e.cls, [], ang, sz, e.stretch row, true, false⟩
+    return ⟨e.name, e.cls, [], [], row, ang, sz, sc, 0, 0, e.stretch row, true, true, false⟩
   let nodes := eltNodes all e row
   let pins ← requiredPins e row nodes
   if pins.length != nodes.length then throw "pin-mismatch"
   if row.defaultAspect == 0 then throw "zero-aspect"
-  let h := row.w / row.defaultAspect
-  let width := row.w * sz * spacing
-  let tc ← pins.mapM (fun p => do
-    let s ← (if !row.canScale then pure (1 : Rat)
-             else if p.scalable then pure 1
-             else if width == 0 then throw "zero-width" else pure (2 * sc / width))
-    match rot ang (p.x * row.w, p.y * h) with
-    | some v => pure (v.1 * s, v.2 * s)
-    | none => throw "unsupported-angle")
-  return ⟨e.name, e.cls, nodes.zip tc, ang, sz, e.stretch row, skip, row.nodePinnames == ["+", "-"] && row.aux.isEmpty⟩
+  return ⟨e.name, e.cls, nodes, pins, row, ang, sz, sc, row.w / row.defaultAspect, row.w * sz * spacing, e.stretch row, skip,
+          false, row.nodePinnames == ["+", "-"] && row.aux.isEmpty⟩
+
+/-- Cpt.scales for one pin -/
+def pinScale (p : PreResolved) (pin : PinRow) : Except String Rat :=
+  if !p.row.canScale then .ok 1
+  else if pin.scalable then .ok 1
+  else if p.width == 0 then .error "zero-width" else .ok (2 * p.scale / p.width)
+
+/-- one row of Cpt.tcoords: `tf((0, 0), coord, scale)` -/
+def pinCoord (rot : Rat → Rat × Rat → Option (Rat × Rat)) (p : PreResolved) (pin : PinRow) : Except String (Rat × Rat) :=
+  match pinScale p pin with
+  | .error e => .error e
+  | .ok s =>
+    match rot p.angle (pin.x * p.row.w, pin.y * p.h) with
+    | some v => .ok (v.1 * s, v.2 * s)
+    | none => .error "unsupported-angle"
+
+/-- Cpt.tcoords with a given rotation function (`rotCode` = the code, `rotExact` = the meaning) -/
+def resolveWith (rot : Rat → Rat × Rat → Option (Rat × Rat)) (spacing : Rat) (all : List String) (e : Elt) :
+    Except String Resolved :=
+  match resolvePre spacing all e with
+  | .error m => .error m
+  | .ok p =>
+    if p.ignored then .ok ⟨p.name, p.cls, [], p.angle, p.size, p.stretch, true, false⟩ else
+    match mapE (pinCoord rot p) p.pinRows with
+    | .error m => .error m
+    | .ok tc => .ok ⟨p.name, p.cls, p.nodes.zip tc, p.angle, p.size, p.stretch, p.skip, p.onePort⟩
 
 /-! ### graphs (SchemPlacerBase._make_graphs) -/
 
@@ -419,11 +470,13 @@ structure Netlist where
   elts : List Elt
 deriving Repr
 
-def resolveAll (rot : Rat → Rat × Rat → Option (Rat × Rat)) (n : Netlist) : Except String (List String × List Resolved) := do
-  let elts ← expandAll n.elts
-  let all := schNodes elts
-  let rs ← elts.mapM (resolveWith rot n.spacing all)
-  return (all, rs)
+def resolveAll (rot : Rat → Rat × Rat → Option (Rat × Rat)) (n : Netlist) : Except String (List String × List Resolved) :=
+  match expandAll n.elts with
+  | .error m => .error m
+  | .ok elts =>
+    match mapE (resolveWith rot n.spacing (schNodes elts)) elts with
+    | .error m => .error m
+    | .ok rs => .ok (schNodes elts, rs)
 
 /-- spec of a netlist: drawn nodes and hint items, with the rotation a hint *means* -/
 def specOf (n : Netlist) : Except String Spec := do
@@ -497,6 +550,15 @@ def revTopoB (edges : List WEdge) : List String → Bool
 def RevTopo (edges : List WEdge) : List String → Prop
   | [] => True
   | v :: earlier => (∀ e ∈ edges, e.src = v → e.dst ∉ v :: earlier) ∧ RevTopo edges earlier
+
+/-- `path` is a walk starting at `s` -/
+def PathFrom : String → List WEdge → Prop
+  | _, [] => True
+  | s, e :: rest => e.src = s ∧ PathFrom e.dst rest
+
+def pathEnd : String → List WEdge → String
+  | s, [] => s
+  | _, e :: rest => pathEnd e.dst rest
 
 /-- the model's layout of one axis: contract linked nodes, longest path over class representatives -/
 def placeAxis (k : Rat) (nodes : List String) (links : List (String × String)) (edges : List Edge) :
